@@ -208,11 +208,21 @@ Definition string_token (pf : str_prefix) (p : list N) : res (c_elem_ty * list N
   end.
 
 (* ---------------- character constants ---------------- *)
-(* strchr(p, '\''): the list behind the first single quote *)
-Fixpoint after_quote (p : list N) : option (list N) :=
+(* the closing-quote loop of read_char_literal (commit 6181ddd):
+     for (end = p; *end != '\''; end++) { if ( *end == 0) error; if ( *end == '\\' && end[1]) end++; }
+   the list behind the closing quote; None = error_at(p, "unclosed char literal").  A backslash
+   and the character behind it are stepped over together, so an escaped quote does not close. *)
+Fixpoint char_literal_end (p : list N) : option (list N) :=
   match p with
   | [] => None
-  | b :: p' => if b =? 39 then Some p' else after_quote p'
+  | b :: p1 =>
+    if b =? 39 then Some p1
+    else if b =? 92 then
+      match p1 with
+      | [] => None                             (* end[1] == 0: no extra step; the next *end is the terminator *)
+      | _ :: p2 => char_literal_end p2
+      end
+    else char_literal_end p1
   end.
 
 (* static Token *read_char_literal(char *start, char *quote, Type *ty): p points behind the
@@ -229,7 +239,7 @@ Definition read_char_literal (p : list N) : res (N * list N) :=
                   end in
     match r with
     | Ok (c, p') =>
-      match after_quote p' with
+      match char_literal_end p' with
       | Some rest => Ok (c, rest)
       | None => Err ErrUnclosedChar
       end
@@ -339,16 +349,23 @@ Definition scan_base (s : list N) : N * list N :=
   else if peek s =? 48 then (8, s)
   else (10, s).
 
+(* commit d1a8518: after the scanner has consumed its own prefix, a second 0x (resp. 0b) at that
+   point is refused before strtoul - which would skip a 0x of its own - is called *)
+Definition doubled_prefix (base : N) (p : list N) : bool :=
+  ((base =? 16) && caseeq p [48;120]) || ((base =? 2) && caseeq p [48;98]).
+
 (* the scanning part of convert_pp_int on the token text s: None = return false;
    Some (base, val as uint64, l, u) *)
 Definition scan_int (s : list N) : option (N * N * bool * bool) :=
   let bp := scan_base s in
-  let vp := strtoul (snd bp) (fst bp) in
-  let sp := scan_suffix (snd vp) in
-  match snd sp with
-  | [] => Some (fst bp, fst vp, fst (fst sp), snd (fst sp))       (* p == tok->loc + tok->len *)
-  | _ :: _ => None
-  end.
+  if doubled_prefix (fst bp) (snd bp) then None
+  else
+    let vp := strtoul (snd bp) (fst bp) in
+    let sp := scan_suffix (snd vp) in
+    match snd sp with
+    | [] => Some (fst bp, fst vp, fst (fst sp), snd (fst sp))       (* p == tok->loc + tok->len *)
+    | _ :: _ => None
+    end.
 
 (* static bool convert_pp_int(Token *tok): tok->val (as uint64) and tok->ty *)
 Definition convert_pp_int (s : list N) : option (N * lit_ty) :=
